@@ -391,11 +391,12 @@ fn possible_intersection_core<F: AnyF, S: Src>(s: &mut S, kind: u8, p1: Coord<F>
             let d1 = ip != p1 && ip != q1;
             let d2 = ip != p2 && ip != q2;
             assert!(div_calls() == (d1 as usize) + (d2 as usize), "C16: exactly the segments that contain the point in their interior are split");
+            // (in which order the two are split is not part of the property)
             if d1 {
-                assert!(div_call(0, &se1, ip), "C16: the first segment is split at the reported point");
+                assert!(div_call(0, &se1, ip) || div_call(1, &se1, ip), "C16: the first segment is split at the reported point");
             }
             if d2 {
-                assert!(div_call(d1 as usize, &se2, ip), "C16: the second segment is split at the same reported point");
+                assert!(div_call(0, &se2, ip) || div_call(1, &se2, ip), "C16: the second segment is split at the same reported point");
             }
         }
     } else if s1 == s2 {
